@@ -33,13 +33,13 @@ def run(R, tier, seed, driver_ok):
     for rep in range(reps):
         d = int(rng.randint(2, 6))
         X, y = zoo.blobs(rng, d)
-        if rep % 4 == 3:
-            X = X * float(10.0 ** rng.choice([-3, 3]))          # the same data in other units
         quads = X[zoo.quads_from(X, y, rng, n=int(rng.randint(4, 20)))]
         if rep % 5 == 4:
             quads = quads[rng.choice(len(quads), size=int(rng.randint(1, 4)), replace=False)]   # one to three comparisons
         nq = len(quads)
         prior_kind = ['identity', 'covariance', 'random', 'array'][rep % 4]
+        if nq <= 3 and prior_kind == 'covariance':
+            prior_kind = 'identity'          # (the covariance of so few points is singular: a documented rejection)
         B = rng.randn(d, d)
         prior = B.dot(B.T) + 0.5 * np.eye(d) if prior_kind == 'array' else prior_kind
         wmode = ['none', 'array', 'list', 'none'][(rep // 4) % 4]
